@@ -398,6 +398,19 @@ func checkC01(p *Prog, r *Report) {
 			r.Check(ok, "pair priority orientation controlling="+ctrl, pa.EndPos, strings.Join(pa.Events, ","), "with controlling="+ctrl+" the code takes "+strings.Join(pa.Events, ","))
 		}
 	}
+
+	// ---- R1.10 the parked nomination survives supersession -------------------------------------------
+	r.Rule("R1.10", "When a signalled candidate supersedes a peer-reflexive one, the replacement pair keeps the pair's check state, its nominated flag and the remembered (parked) nomination: a nomination that arrived before the pair was valid is still honoured when the triggered check succeeds on the replacement.", 1)
+	if f := p.Fn("replacePairRemote"); r.Anchor("replacePairRemote", f != nil) {
+		covered, _ := p.replacePairCoverage(f)
+		var missing []string
+		for _, n := range []string{"state", "nominated", "nominateOnBindingSuccess", "id"} {
+			if !covered[n] {
+				missing = append(missing, n)
+			}
+		}
+		r.Check(len(missing) == 0, "replacePairRemote carries the nomination state over", p.Pos(f.Body.Pos()), "state, nominated, nominateOnBindingSuccess, id copied from the same field", "not carried over: "+strings.Join(missing, ", ")+" — a nomination parked on the peer-reflexive pair is forgotten; the controlled agent never selects the pair although the controlling side already did")
+	}
 }
 
 func hasEq(vals map[string]string, name, c string) bool {
